@@ -33,10 +33,11 @@ theorem change_other_kind (a1 : Option Nat) (f : F) :
 
 /-- no other call changes the kind of the fill, accepted or refused -/
 theorem kind_frame (a1 : Option Nat) (f : F) (op : Op)
-    (h : op ≠ .background ∧ op ≠ .solid ∧ op ≠ .gradient ∧ op ≠ .patterned) :
+    (h : op ≠ .background ∧ op ≠ .solid ∧ op ≠ .gradient ∧ op ≠ .patterned ∧ ∀ o, op ≠ .viaColor o) :
     kindOf (step a1 f op).1 = kindOf f := by
-  obtain ⟨h1, h2, h3, h4⟩ := h
+  obtain ⟨h1, h2, h3, h4, h5⟩ := h
   cases op with
+  | viaColor o => exact absurd rfl (h5 o)
   | background => exact absurd rfl h1
   | solid => exact absurd rfl h2
   | gradient => exact absurd rfl h3
@@ -59,6 +60,12 @@ theorem kind_frame (a1 : Option Nat) (f : F) (op : Op)
       | none => simp [step, kindOf, hs]
       | some s => by_cases hp : posOk n d = true <;> simp [step, kindOf, hs, hp]
     | _ => simp [step, kindOf]
+
+/-- the owner's shortcut (`line.color`, `font.color`) followed by an assignment is `solid()` followed by the assignment
+    through `fore_color` — "accessing this property causes the fill type to be set to SOLID" — whatever the fill was -/
+theorem viaColor_spec (a1 : Option Nat) (f : F) (o : Color.Op) :
+    step a1 f (.viaColor o) = step a1 (step a1 f .solid).1 (.fore o) ∧ kindOf (step a1 f (.viaColor o)).1 = .solid := by
+  cases f <;> simp [step, kindOf]
 
 /-! ### which calls are refused, exactly -/
 
@@ -140,6 +147,14 @@ theorem fore_rgb (a1 : Option Nat) (f : F) (v : Nat) (h : kindOf f = .solid ∨ 
   refine ⟨h2.mpr (by rw [hs]; simp), s', ?_, hr, ht⟩
   rw [h1, hs]; rfl
 
+/-- hence `x.color.rgb = v` always leaves a solid fill whose colour is RGB `v` -/
+theorem viaColor_rgb (a1 : Option Nat) (f : F) (v : Nat) :
+    (step a1 f (.viaColor (.rgb v))).2 = .ok ∧
+    ∃ c, foreOf (step a1 f (.viaColor (.rgb v))).1 = some c ∧ Color.rgbOf c = some v := by
+  rw [(viaColor_spec a1 f (.rgb v)).1]
+  obtain ⟨h1, c, h2, h3, _⟩ := fore_rgb a1 (step a1 f .solid).1 v (Or.inl (kind_after_change a1 f).2.2.2.1)
+  exact ⟨h1, c, h2, h3⟩
+
 /-! ### gradient stops -/
 
 theorem setNth_length {α : Type} (l : List α) (i : Nat) (x : α) : (setNth l i x).length = l.length := by
@@ -194,6 +209,7 @@ def lastKind : List Op → Option Kind
       | .solid => some .solid
       | .gradient => some .grad
       | .patterned => some .patt
+      | .viaColor _ => some .solid
       | _ => none
 
 /-- after ANY history of calls (accepted and refused, from any start fill) the fill's kind is the one the last
@@ -219,6 +235,7 @@ theorem run_kind (a1 : Option Nat) (f : F) (ops : List Op) :
       | angle n d => simp [lastKind, hl, kind_frame a1 f (.angle n d) (by simp)]
       | stopClr i o => simp [lastKind, hl, kind_frame a1 f (.stopClr i o) (by simp)]
       | stopPos i n d => simp [lastKind, hl, kind_frame a1 f (.stopPos i n d) (by simp)]
+      | viaColor o => simp [lastKind, hl, (viaColor_spec a1 f o).2]
 
 /-! ### non-vacuity -/
 
